@@ -32,6 +32,12 @@ impl Byte {
     ) -> io::Result<Cow<'de, [u8]>> {
         match self {
             Self::External { block_content_id } => {
+                // The writer omits external blocks that hold no data, so taking nothing must not
+                // require the block to be present.
+                if len == 0 {
+                    return Ok(Cow::from(&[][..]));
+                }
+
                 let src = external_data_readers
                     .get_mut(block_content_id)
                     .ok_or_else(|| {
